@@ -112,7 +112,7 @@ def _range_job(run, exe, base, a, b, crashes):
             crashes.append({"i": idx, "kind": kind, "rc": rc, "info": info, "tail": text[-600:]})
             syn = os.path.join(run.work, f"syn_{idx:010d}")
             os.makedirs(syn, exist_ok=True)
-            ev = {"i": idx, "cls": info["cls"], "hex": info["hex"], "len": info["len"], "b0": info["b0"],
+            ev = {"e": "dec", "i": idx, "cls": info["cls"], "hex": info["hex"], "len": info["len"], "b0": info["b0"],
                   "out": kind, "out2": kind, "h1": 0, "h2": 0, "disp": "none", "dbg": "none",
                   "fb_out": kind, "fb_out2": kind, "fb_h1": 0, "fb_h2": 0, "fb_used": -1,
                   "fb_disp": "none", "fb_dbg": "none", "at": "", "ptxt": kind}
@@ -120,7 +120,7 @@ def _range_job(run, exe, base, a, b, crashes):
             for n in ("c07.ndjson", "c08.ndjson"):
                 open(os.path.join(syn, n), "w").close()
             with open(os.path.join(syn, "stats.json"), "w") as f:
-                json.dump({"events_c01": 1, "events_c07": 0, "events_c08": 0, "synthetic": True}, f)
+                json.dump({"events_c01": 1, "events_ctx": 0, "events_c07": 0, "events_c08": 0, "synthetic": True}, f)
             parts.append((idx, syn))
             pending = [(lo, idx), (idx + 1, hi)] + pending
     return parts
@@ -155,7 +155,7 @@ def decode_pass(run, want, **override):
     exe = core.build_rs("c01")
     base = dict(shapes=shapes, seed=run.seed, k_random=t["k_random"], field_rand=t["field_rand"],
                 field_lite=t["field_lite"], windows=t["windows"], win_df=t["win_df"], wl_every=t["wl_every"],
-                hang_ms=HANG_MS, emit01=("c01" in want), emit07=("c07" in want), emit08=("c08" in want),
+                hang_ms=HANG_MS, ctx=("c01" in want), ctx_every=t.get("ctx_every", 16), emit01=("c01" in want), emit07=("c07" in want), emit08=("c08" in want),
                 sample_every=20011 if run.tier == "quick" else 400009, count_keys=sorted(t.get("count_keys", [])))
     cfg0 = _write_cfg(run, "cfg_count", base, out=run.work)
     p = subprocess.run([exe, "count", cfg0], stdout=subprocess.PIPE, text=True, timeout=1200)
@@ -178,7 +178,7 @@ def decode_pass(run, want, **override):
     res["exe"] = exe
     res["cfg"] = cfg0
     # merge the statistics
-    st = {"events_c01": 0, "events_c07": 0, "events_c08": 0, "accepted": 0, "messages_flattened": 0,
+    st = {"events_c01": 0, "events_ctx": 0, "events_c07": 0, "events_c08": 0, "accepted": 0, "messages_flattened": 0,
           "leaves_total": 0, "nulls": 0, "nulls_nonfinite": 0}
     outcomes, ser_errs, keys, samples, structs = {}, {}, {}, [], set()
     for _, d in parts:
@@ -353,3 +353,32 @@ def replay_cases(run, path, which, trace_module):
         if mm:
             out.append((events[int(mm.group(1)) - 1], re.findall(r'"([^"]*)"', mm.group(2))))
     return out, len(events)
+
+
+def position_records(run, thorough):
+    """C07, position-attached records: TLC (Gen_PosRecords, CPR.tla) -> harness `c01 pos`
+    (cpr::decode_positions on TimedMessages) -> Trace_Json.  Returns (rejected, info)."""
+    vec = os.path.join(run.work, "posvectors.ndjson")
+    g = core.tlc_ok("gen/Gen_PosRecords", cfg="gen/Gen_PosRecords_thorough.cfg" if thorough else None,
+                    env={"OUT": vec}, xmx="3g", timeout=1200)
+    run.add_tlc(g)
+    mm = re.search(r'<<"POSVECTORS", (\d+), (\d+)>>', g.out)
+    with open(vec) as f:
+        n_vec = sum(1 for _ in f)
+    if not mm or int(mm.group(1)) != n_vec or n_vec == 0:
+        raise core.ToolError("Gen_PosRecords did not write its vectors")
+    exe = core.build_rs("c01")
+    tr = os.path.join(run.work, "pos_c07.ndjson")
+    p = subprocess.run([exe, "pos", vec, tr], stdout=subprocess.PIPE, stderr=subprocess.STDOUT, text=True, timeout=1800)
+    if p.returncode != 0:
+        raise core.ToolError("c01 pos failed\n" + p.stdout[-2000:])
+    info = json.loads(p.stdout.strip().splitlines()[-1])
+    if info["undecoded"]:
+        raise core.ToolError(f"{info['undecoded']} generated position frames were not accepted by the decoder")
+    res = {"parts": [(0, run.work)], "tier": {"tlc_procs": 2}}
+    os.replace(tr, os.path.join(run.work, "posrec.ndjson"))
+    rejected, n, results = validate_parts(run, res, "trace/Trace_Json", "posrec.ndjson", max_lines=60000, keep=True,
+                                          slim=lambda e: {k: v for k, v in e.items()
+                                                          if k not in ("bytes", "frame_b", "df", "icao", "tdf", "ticao", "dupkeys")})
+    info.update(points=int(mm.group(2)), histories=n_vec, validated=n, tlc_runs=len(results))
+    return rejected, info
